@@ -393,10 +393,39 @@ func WrapDnsResponseNull(msg *dns.Msg, data []byte, domain string) error {
 	return nil
 }
 
+// usableRecord tells whether an answer record is long enough to carry its order tag (and, for the name based
+// record types, the tunnel domain). Answers come from the network: anything shorter is not ours and is skipped.
+func usableRecord(rr dns.RR, domain string) bool {
+	switch v := rr.(type) {
+	case *dns.NULL:
+		return len(v.Data) >= 2
+	case *dns.PrivateRR:
+		return v.Data != nil && len(v.Data.String()) >= 2
+	case *dns.TXT:
+		return len(v.Txt) > 0 && len(v.Txt[0]) >= 2
+	case *dns.MX:
+		return len(v.Mx) >= len(domain)+2
+	case *dns.SRV:
+		return len(v.Target) >= len(domain)+2
+	case *dns.CNAME:
+		return len(v.Target) >= len(domain)+4
+	case *dns.AAAA:
+		return len(v.AAAA) >= 2
+	case *dns.A:
+		return len(v.A) >= 1
+	}
+	return true
+}
+
 // UnwrapDnsResponse will decode the DNS message and return the bytes in the response
 func UnwrapDnsResponse(q *dns.Msg, domain string) []byte {
 	resp := make([]byte, 0)
-	answers := append([]dns.RR{}, q.Answer...)
+	answers := make([]dns.RR, 0, len(q.Answer))
+	for _, rr := range q.Answer {
+		if usableRecord(rr, domain) {
+			answers = append(answers, rr)
+		}
+	}
 
 	sort.Slice(answers, func(i, j int) bool {
 		return TypePriority(answers[i]) < TypePriority(answers[j])
